@@ -1,17 +1,29 @@
 // C17: constructions built on geodesics — NearestNeighbor (C17_nn.hpp), AzimuthalEquidistant / Gnomonic / CassiniSoldner
-// (C17_proj.hpp), Intersect (C17_isect.hpp)
+// (C17_proj.hpp), Intersect (C17_isect.hpp: oracles; C17_ixm.hpp, C17_ixs.hpp: the Lean models of the helpers and of the search bookkeeping)
 #include "common.hpp"
+#include "C17_tools.hpp"
 #include "C17_nn.hpp"
 #include "C17_proj.hpp"
 #include "C17_isect.hpp"
 #include "C17_ixm.hpp"
+#include "C17_ixs.hpp"
 
 void gv::generate(const std::string& tier, uint64_t seed) {
   bool thorough = tier == "thorough";
   gv::Rng r(seed);
-  { gv::Rng r1(r.next()); c17nn::generate(r1, thorough); }
-  { gv::Rng r2(r.next()); c17proj::generate(r2, thorough); }
-  { gv::Rng r4(r.next()); c17ixm::generate(r4, thorough); }
-  { gv::Rng r3(r.next()); c17isect::generate(r3, thorough); }
+  // C17_ONLY=nn|proj|ixm|isect|ixs|tools restricts the run to one part (development aid; the check never sets it)
+  const char* only = std::getenv("C17_ONLY"); auto on = [&](const char* p) { return !only || std::string(only) == p; };
+  // The thorough tier (also used, with a time budget, as the failing-input search after a broken obligation) runs the six parts
+  // round-robin in K slices, cheapest first, so that whatever the budget every part has produced cases; the quick tier runs each part once.
+  const int K = thorough ? 8 : 1;
+  for (int k = 0; k < K; ++k) {
+    uint64_t s1 = r.next(), s2 = r.next(), s4 = r.next(), s3 = r.next(), s5 = r.next(), s6 = r.next();
+    { gv::Rng q(s4); if (on("ixm")) c17ixm::generate(q, thorough, K); }
+    { gv::Rng q(s5); if (on("ixs")) c17ixs::generate(q, thorough, K); }
+    { gv::Rng q(s6); if (on("tools")) c17tools::generate(q, thorough, K); }
+    { gv::Rng q(s1); if (on("nn")) c17nn::generate(q, thorough, K); }
+    { gv::Rng q(s2); if (on("proj")) c17proj::generate(q, thorough, K); }
+    { gv::Rng q(s3); if (on("isect")) c17isect::generate(q, thorough, K); }
+  }
 }
 int main(int c, char** v) { return gv::main_(c, v); }
